@@ -764,6 +764,13 @@ TOP:
 				}
 			}
 		case method != nil:
+			if !ov.Type().AssignableTo(method.Type().In(0)) {
+				// The method was bound for another Go type, an error and
+				// not a panic in Call.
+				ea = append(ea, resWarn(field.line, field.col, "%s: %s is bound to a method of %s, not of %T",
+					ErrMeta, field.Name, method.Type().In(0), obj))
+				return
+			}
 			args, ea2 := root.formReflectArgs(ov, vars, field, fd, method)
 			if 0 < len(ea2) {
 				ea = append(ea, ea2...)
